@@ -26,6 +26,7 @@ class Bench:
         self.steps = 0
         self.on_event = None              # callback(kind, info) after each transition
         self.on_finished = None
+        self.on_cycle = None              # callback(name, count) inside new_cycle
         self.on_select = None             # callback(name, val, cost, cycle) inside value_selection
 
     # -- wiring -------------------------------------------------------------------------------
@@ -53,6 +54,8 @@ class Bench:
 
             def cyc(count, _o=orig_cyc, _n=name):
                 bench.cycles.append((_n, count))
+                if bench.on_cycle:
+                    bench.on_cycle(_n, count)
                 return _o(count)
             comp._on_new_cycle = cyc
         orig_fin = comp.finished
@@ -75,6 +78,7 @@ class Bench:
 
     _reinjecting = None
     ticks_enabled = True
+    fixed_schedule = False            # True: always fire the first enabled transition (one canonical schedule)
 
     # -- transitions --------------------------------------------------------------------------
     def enabled(self, with_start=True):
@@ -152,9 +156,9 @@ class Bench:
             cands = [t for t in en if t not in sleep]
             if not cands:
                 raise PathCut()
-            i = self.eng.choose(len(cands), "sched")
+            i = 0 if self.fixed_schedule else self.eng.choose(len(cands), "sched")
             t = cands[i]
-            if self.sleep_sets:
+            if self.sleep_sets and not self.fixed_schedule:
                 tgt = self.target(t)
                 sleep = frozenset(s for s in (set(sleep) | set(cands[:i]))
                                   if self.target(s) != tgt)
